@@ -800,10 +800,21 @@ pub fn gen_trimer(rng: &mut Rng, tag: &str) -> String {
 }
 
 pub fn gen_lj_shape(rng: &mut Rng) -> String {
-    if rng.chance(1, 3) {
-        "ljcircle".to_string()
-    } else {
-        gen_trimer(rng, "ljtrimer")
+    match rng.below(8) {
+        0 | 1 => "ljcircle".to_string(),
+        2 | 3 => {
+            // a general molecule (public fields / JSON): 1..4 particles, each with its own sigma,
+            // epsilon and cutoff — truncated and untruncated particles mixed
+            let n = 1 + rng.usize(4);
+            let parts: Vec<String> = (0..n)
+                .map(|_| {
+                    let cut = match rng.below(3) { 0 => "-".to_string(), 1 => fhex(3.5), _ => fhex(rng.range(0.5, 5.0)) };
+                    format!("{} {} {} {} {}", fhex(rng.range(-1.0, 1.0)), fhex(rng.range(-1.0, 1.0)), fhex(rng.logmag(-0.5, 0.5)), fhex(rng.logmag(-1.0, 1.0)), cut)
+                })
+                .collect();
+            format!("ljs {} {}", n, parts.join(" "))
+        }
+        _ => gen_trimer(rng, "ljtrimer"),
     }
 }
 
